@@ -374,6 +374,13 @@ func RunWithDeadline(label string, steps int, d time.Duration, f func()) {
 	}
 }
 
+// RaceDetect turns on the engine's happens-before race detector for the rest
+// of the path: two conflicting accesses to an interpreted heap cell or Go map
+// by different tasks that are not ordered by the modelled synchronisation are
+// a failure of label. Natively it does nothing: the replay binary of a
+// race-mode harness is built with -race and the Go race detector is the oracle.
+func RaceDetect(label string) {}
+
 // SchedPreemptAtLoads makes every atomic load (for the risor VM: every
 // instruction boundary) a voluntary preemption point in the engine.
 func SchedPreemptAtLoads(on bool) {}
